@@ -64,6 +64,7 @@ let parse_op (s : string) : op =
   | [ "bnd" ] -> OBnd
   | [ "int"; v ] -> OInt (zx v)
   | [ "tick"; n ] -> OTick (zx n)
+  | [ "ss"; v ] -> OSum (zx v)
   | [ "w16"; a; v ] -> OWr (z_of_int 2, zx a, zx v)
   | [ "w32"; a; v ] -> OWr (z_of_int 4, zx a, zx v)
   | [ "r16"; a ] -> ORd (z_of_int 2, zx a)
@@ -281,6 +282,7 @@ let ref_port (c : case) : string * bool =
         let k = int_of_z p in
         if k >= 1 && k <= 11 then begin ports.(k) <- pstep ports.(k) (PInput v); note k; touched := k :: !touched end;
         "ok"
+      | OSum _ -> "ok"
       | OR8 a ->
         let ai = int_of_z a in
         if ai >= 0xffffd0 && ai <= 0xffffda then fmt_res (ROkV (p_read ports.(ai - 0xffffd0 + 1)))
